@@ -202,6 +202,17 @@ def make_corpus(seed_value, n):
         return None
 
     core.hyp_run(seed_value, both, body, n, shrink=False)
+    # formulas in which two DIFFERENT temporal subformulas interact (F q with p U q, G p with q R p, ...):
+    # tables keyed by a part of a subformula, iterated in hash order, only matter there
+    from .c02 import temporal_pairs
+    pairs = temporal_pairs()
+    m = {'p': atoms[0], 'q': atoms[1]}
+    k3 = list(km.scope(3))
+    for i, g in enumerate(pairs[seed_value % 7::max(1, (len(pairs) * 3) // max(n, 1))]):
+        K = km.rename_labels(k3[(i * 7919 + seed_value * 31) % len(k3)], m)
+        checker = ('LTL', 'CTLS')[i % 2]
+        cases.append({'K': K, 'f': top('LTL', fm.rename_atoms(g, m)), 'checker': checker,
+                      'naming': ('str', 'mixed', 'tuple', 'strlen')[i % 4], 'how': i % 6})
     # distinct cases only, stable order
     seen = set()
     out = []
@@ -225,6 +236,12 @@ def random_shard(st, shard, nshards, payload):
         f = draw({'CTL': fm.st_formula('ctl', max_depth=3),
                   'LTL': fm.st_formula('ltl_path', max_depth=3, max_temporal=2),
                   'CTLS': fm.st_formula('ctls_state', max_depth=3, max_temporal=2)}[checker])
+        if checker != 'CTL' and draw(hs.integers(0, 2)) == 0:
+            # two different temporal subformulas that interact (F q with p U q, G p with q R p, ...)
+            from .c02 import temporal_pairs
+            pairs = temporal_pairs()
+            g = pairs[draw(hs.integers(0, len(pairs) - 1))]
+            f = g if checker == 'LTL' else (draw(hs.sampled_from(['A', 'E'])), g)
         ext = None
         if draw(hs.booleans()):
             m = draw(hs.integers(1, 2))
